@@ -254,6 +254,36 @@ func c11Probes(w *World) *probeRun {
 			p.do(Op{Kind: "NotifyOk", AuthReq: o.H})
 		}
 	}
+	// sessions whose request_uri is already consumed are stored (an interaction in progress started from a
+	// pushed request; a finished one holding its code): a plain request - no request_uri at all - must not pick
+	// one of them up where PAR is required
+	for _, x := range []int{1, 2} {
+		pr := p.do(Op{Kind: "Par", Cred: Cred{ID: x, OK: true}, Params: good(x, goodRT)})
+		if pr.Kind == "Par" {
+			p.do(Op{Kind: "Authorize", Client: x, Params: Params{RequestURI: pr.H, RespType: goodRT, Scopes: "openid email"}, PolicyAvail: true, Pol: Pol{Kind: "PolInProgress"}})
+			authorize(x, good(x, goodRT))
+			authorize(x, Params{RespType: goodRT, Scopes: "openid email"})
+			authorize(x, Params{})
+		}
+	}
+	// the implicit flow with the response type ONLY inside the pushed request (no openid scope, so nothing
+	// forces the outer parameters to repeat it) and no DPoP key announced: under DPoP / binding required the
+	// authorization endpoint must not hand out an unbound token
+	for _, x := range []int{1, 3} {
+		for _, rt := range []string{"token", "code token"} {
+			ps := good(x, rt)
+			ps.Scopes, ps.Nonce = "email", ""
+			pr := p.do(Op{Kind: "Par", Cred: Cred{ID: x, OK: true}, Params: ps})
+			if pr.Kind == "Par" {
+				authorize(x, Params{RequestURI: pr.H})
+			}
+			ps.DpopJkt = w.keys[0].H
+			pr = p.do(Op{Kind: "Par", Cred: Cred{ID: x, OK: true}, Params: ps})
+			if pr.Kind == "Par" {
+				authorize(x, Params{RequestURI: pr.H})
+			}
+		}
+	}
 	return p
 }
 
